@@ -57,6 +57,16 @@ func genC15Val(t *rapid.T, label string) uint64 {
 
 func genC15(t *rapid.T) CaseC15 {
 	c := CaseC15{P: genC15Val(t, "p"), Q: genC15Val(t, "q")}
+	if rapid.IntRange(0, 4).Draw(t, "q-rel") == 0 {
+		// q at a power-of-two distance (+-1) from p, in either direction, modulo 2^33
+		k := uint(rapid.IntRange(0, 33).Draw(t, "q-rel-k"))
+		delta := uint64(1)<<k + uint64(rapid.IntRange(-1, 1).Draw(t, "q-rel-off")+1) - 1
+		if rapid.Bool().Draw(t, "q-rel-back") {
+			c.Q = (c.P - delta) & c15Max
+		} else {
+			c.Q = (c.P + delta) & c15Max
+		}
+	}
 	switch rapid.IntRange(0, 4).Draw(t, "d-kind") {
 	case 0:
 		c.D = rapid.SampledFrom([]uint64{1, 2, 3, 161999998, 161999999, 162000000}).Draw(t, "d")
@@ -236,7 +246,7 @@ func checkC15(c CaseC15, x *hx.Ctx) (fail *hx.Failure) {
 var propC15 = hx.Register(hx.Prop[CaseC15]{ID: "C15", Gen: genC15, Check: checkC15})
 
 func c15Rule() {
-	hx.Rec("C15").SetRule("cases are (p, q, d): p, q 33-bit values drawn with bias to within 5 ticks of 0, 162000000, 2^33-1-162000000, 2^33-1 (and boundary-bit values), d in [1,162000000] biased to the window ends and to sums that land on a threshold or on the wrap; every clause of the statement is checked against uint64 reference arithmetic. Non-trivial: p or q within 3 ticks of a threshold, or p+d wraps past 2^33-1. Distinct by (p,q,d).",
+	hx.Rec("C15").SetRule("cases are (p, q, d): p, q 33-bit values drawn with bias to within 5 ticks of 0, 162000000, 2^33-1-162000000, 2^33-1 (and boundary-bit values), d in [1,162000000] biased to the window ends and to sums that land on a threshold or on the wrap; one case in five has q at a power-of-two distance (+-1) from p; every clause of the statement is checked against uint64 reference arithmetic. Non-trivial: p or q within 3 ticks of a threshold, or p+d wraps past 2^33-1. Distinct by (p,q,d).",
 		"all values are 33-bit (the statement quantifies over 33-bit times)")
 }
 
@@ -280,6 +290,25 @@ func TestC15Exhaustive(t *testing.T) {
 			}
 		}
 	}
+	// pairs at every power-of-two distance (+-1), both directions, from a spread of base values
+	bases := append([]uint64{}, vals...)
+	for i := uint64(0); i < 64; i++ {
+		bases = append(bases, (i*0x08421085+0x1234567)&c15Max, c15Lower+i*97, c15Upper-i*89)
+	}
+	for _, p := range bases {
+		for k := uint(0); k <= 33; k++ {
+			for off := uint64(0); off <= 2; off++ {
+				delta := uint64(1)<<k + off - 1
+				for _, q := range []uint64{(p + delta) & c15Max, (p - delta) & c15Max} {
+					c := CaseC15{p, q, 1 + (delta % c15Lower)}
+					if f := propC15.EvalFast(c, hx.HashInts(p, q, c.D)); f != nil {
+						t.Fatalf("VIOLATION-CANDIDATE property=C15 key=%s: %s", f.Key, f.Msg)
+					}
+				}
+			}
+		}
+	}
+	hx.Rec("C15").Subspace("pairs (p, p +- (2^k + {-1,0,1}) mod 2^33) for k in 0..33 from the window values and 192 spread base values")
 	hx.Rec("C15").Subspace("all pairs (p,q) from the threshold windows (quick: +-8 ticks, thorough: +-40) x distances {1,2,161999999,162000000, those landing on each threshold and on the wrap}")
 }
 
